@@ -251,7 +251,11 @@ class UniformMPS(MPS):
         hdf5_saver.save(self._AC, subpath + 'tensors_AC')
         hdf5_saver.save(self._C, subpath + 'tensors_C')
         hdf5_saver.save(self.chinfo, subpath + 'chinfo')
+        hdf5_saver.save(self.unit_cell_width, subpath + 'unit_cell_width')
         hdf5_saver.save(self.segment_boundaries, subpath + 'segment_boundaries')
+        if hasattr(self, '_S'):  # defined once the diagonal gauge was computed
+            hdf5_saver.save(self._S, subpath + 'singular_values')
+        h5gr.attrs['diagonal_gauge'] = self.diagonal_gauge
         h5gr.attrs['valid_umps'] = self.valid_umps
         h5gr.attrs['norm'] = self.norm
         h5gr.attrs['grouped'] = self.grouped
@@ -415,6 +419,13 @@ class UniformMPS(MPS):
         obj.grouped = hdf5_loader.get_attr(h5gr, 'grouped')
         obj._transfermatrix_keep = hdf5_loader.get_attr(h5gr, 'transfermatrix_keep')
         obj.chinfo = hdf5_loader.load(subpath + 'chinfo')
+        if 'unit_cell_width' in h5gr:
+            obj.unit_cell_width = hdf5_loader.load(subpath + 'unit_cell_width')
+        else:
+            obj.unit_cell_width = len(obj.sites)  # files written before unit_cell_width existed
+        obj.diagonal_gauge = bool(h5gr.attrs.get('diagonal_gauge', False))
+        if 'singular_values' in h5gr:
+            obj._S = hdf5_loader.load(subpath + 'singular_values')
         obj.dtype = np.result_type(*(B.dtype for B in obj._AR))
         if 'segment_boundaries' in h5gr:
             obj.segment_boundaries = hdf5_loader.load(subpath + 'segment_boundaries')
